@@ -16,6 +16,8 @@ from core import hx
 from runner import Case
 
 THEOREMS = [
+    "C06.rows_complete", "C06.dict_complete_assign", "C06.dict_complete", "C06.paths_distinct",
+    "C06.nested_complete", "C06.nested_empty", "C06.dict_roundtrip", "C06.nested_roundtrip",
 ]
 PROOF_IMPORTS = ["BigtreeProofs.Properties.C06"]
 
